@@ -1,6 +1,6 @@
 /-
 Driver for C04.  Request line:
-  V=<10|20|30|31> T=<tok>,<tok>,...
+  V=<10|20|30|31|120|130|131> T=<tok>,<tok>,...
 tokens: `a<k>.<n>` operand of kind k, `t<n>` type, `o<i>` operator = row i of the generated table of
 that version, `c<0|1>` closer `)` / `]`.
 Answer:  model=<tree|ERR:syntax|ERR:fuel|ERR:unmodelled> spec=<tree|ERR> trig=<finding ids,…|-> rel=<0|1>
@@ -53,7 +53,11 @@ def versions : List Ver := [
   ⟨10, opTable_v10, levels10, levels10impl, false⟩,
   ⟨20, opTable_v20, levels20, levels20impl, true⟩,
   ⟨30, opTable_v30, levels30, levels30, true⟩,
-  ⟨31, opTable_v31, levels31, levels31, true⟩]
+  ⟨31, opTable_v31, levels31, levels31, true⟩,
+  -- the 2.0+ parsers built with compatibility_mode=True: same grammar, own generated tables
+  ⟨120, opTable_v20c, levels20, levels20impl, true⟩,
+  ⟨130, opTable_v30c, levels30, levels30, true⟩,
+  ⟨131, opTable_v31c, levels31, levels31, true⟩]
 
 def answer (line : String) : String :=
   let fs := fields line
@@ -76,7 +80,7 @@ def answer (line : String) : String :=
           (match s with
            | some t =>
              (if v == 10 && trigF04a V.rows t then ["F04a"] else []) ++
-             (if trigF04d v V.rows t then ["F04d"] else [])
+             (if trigF04d (v % 100) V.rows t then ["F04d"] else [])
            | none => [])
         let rel := match m with
           | .ok t => decide (t.yield = toks) && derivableR (gramOf V.impl V.ep (syms V.rows)) 0 t
